@@ -35,7 +35,8 @@ def run(chk):
                        "the statement skeleton of the tag-level generator (arrow functions, var lists, if/else blocks) is covered by the oracle only"]
     chk.model_tie([("GE.Thm.C02VarName", THM_VARNAME), ("GE.Thm.C04", THM_EXPR), ("GE.Thm.C12", THM_LIT),
                    ("GE.Thm.C02Args", ["GE.ChildArgs.args_cover", "GE.ChildArgs.table_ok_range", "GE.ChildArgs.params_text", "GE.ChildArgs.childLevel_keys"]),
-                   ("GE.Thm.C02Writer", ["GE.JsWriter.monitor_sound", "GE.JsWriter.names_fresh", "GE.JsWriter.runFs_keeps", "GE.JsWriter.allocId_spec"])])
+                   ("GE.Thm.C02Writer", ["GE.JsWriter.monitor_sound", "GE.JsWriter.names_fresh", "GE.JsWriter.runFs_keeps", "GE.JsWriter.allocId_spec"]),
+                   ("GE.Thm.C02WriterMono", ["GE.JsWriter.root_declared_increasing", "GE.JsWriter.root_names_nodup"])])
     from . import childargs
     childargs.run(chk)
     rng = chk.rng.fork("c02")
